@@ -216,8 +216,6 @@ def cvc5_verdict(solver, timeout_s, name):
                            text=True, timeout=timeout_s + 30)
     except subprocess.TimeoutExpired:
         return None
-    finally:
-        pass
     o = p.stdout.strip().splitlines()
     if "(error" in p.stdout or "(error" in p.stderr:
         raise Inconclusive("cvc5 error on %s: %s" % (name, (p.stdout + p.stderr)[:300]))
@@ -436,8 +434,8 @@ def make_bodies(progs, lengths, range_lengths):
                 viol(out, ctx, "ordered-range-panic", "range_to_span panics on an ordered range: %s" % e.msg, inputs)
                 stats(out, it)
                 return
-            ok1 = check_offset(out, ctx, spec, lst, l1.t, st.t, "range-start-in-document", inputs)
-            ok2 = check_offset(out, ctx, spec, lst, l2.t, en.t, "range-end-in-document", inputs)
+            check_offset(out, ctx, spec, lst, l1.t, st.t, "range-start-in-document", inputs)
+            check_offset(out, ctx, spec, lst, l2.t, en.t, "range-end-in-document", inputs)
             require(out, ctx, z3.ULE(st.t, en.t), "range-ordered", "span of an ordered range has end < start", inputs)
             out.seen("ordered-range-converted")
             if ctx.can(z3.And(l1.t != l2.t)):
@@ -715,7 +713,7 @@ def main2(tier, t0, progs, nat):
     log("[C20] translator validated on %d concrete calls (%d unit-test texts) in %.1fs" % (nval, ntexts, time.time() - t0))
     if tier == "quick":
         lengths, range_lengths = list(range(0, 6)), [0, 1, 2, 3]
-        SECOND["every"] = 100
+        SECOND["every"] = 300
     else:
         nmax = int(os.environ.get("VERIF_C20_N", "6"))
         lengths, range_lengths = list(range(0, nmax + 1)), [0, 1, 2, 3, 4]
@@ -771,7 +769,7 @@ def main2(tier, t0, progs, nat):
             discharged += len(obl)
         elif "line-table" not in [x["kind"] for x in out.violations] and "line-starts-panic" not in [x["kind"] for x in out.violations]:
             discharged += 1
-        undis = per[name]["violated"] = sorted(set(x["kind"] for x in out.violations))
+        per[name]["violated"] = sorted(set(x["kind"] for x in out.violations))
     need = ["roundtrip:roundtrip-checked", "roundtrip:span-roundtrip-checked", "roundtrip:text-with-multibyte-char",
             "roundtrip:text-with-crlf", "roundtrip:offset-between-cr-and-lf", "roundtrip:column-differs-from-byte-offset",
             "roundtrip:no-trailing-newline",
